@@ -276,16 +276,31 @@ func runCliCase(c *cliCase) (vs []cliViolation, nontrivial bool) {
 			bad("roundtrip-tree-differs", "%s", p)
 		}
 		nontrivial = len(c.Files) > 0
-	case "tree-outdir":
+	case "tree-outdir", "tree-outdir-noforce", "tree-outdir-dotslash", "tree-outdir-slash":
 		os.MkdirAll(filepath.Join(work, "out"), 0o755)
 		os.MkdirAll(filepath.Join(work, "back"), 0o755)
-		r1, _ := runTool(work, nil, wall, nil, append(copts, "-i", "t", "-o", "out", "-f")...)
+		// fresh, empty output directories: nothing can be overwritten, so the force option must not be needed; the input
+		// directory may be spelled ./t or t/ (what shell completion produces)
+		inName, force := "t", []string{"-f"}
+		switch c.Kind {
+		case "tree-outdir-noforce":
+			force = nil
+		case "tree-outdir-dotslash":
+			inName = "./t"
+		case "tree-outdir-slash":
+			inName = "t/"
+		}
+		r1, _ := runTool(work, nil, wall, nil, append(append(copts, "-i", inName, "-o", "out"), force...)...)
 		if r1.exit != 0 {
 			bad("compress-exit", "compress dir->dir exits %d: %s", r1.exit, r1.out)
 			return
 		}
 		checkInputsUntouched("compress dir->dir")
-		r2, _ := runTool(work, nil, wall, nil, append(dopts, "-i", "out", "-o", "back", "-f")...)
+		outName := "out"
+		if c.Kind == "tree-outdir-dotslash" {
+			outName = "./out"
+		}
+		r2, _ := runTool(work, nil, wall, nil, append(append(dopts, "-i", outName, "-o", "back"), force...)...)
 		if r2.exit != 0 {
 			bad("decompress-exit", "decompress dir->dir exits %d: %s", r2.exit, r2.out)
 			return
@@ -293,6 +308,21 @@ func runCliCase(c *cliCase) (vs []cliViolation, nontrivial bool) {
 		if p := compareTree(content, filepath.Join(work, "back"), ""); p != "" {
 			// the tool may name restored files <name> or <name>.bak depending on the input suffix: accept the documented mapping only
 			bad("roundtrip-tree-differs", "%s", p)
+		}
+		nontrivial = true
+	case "rm-none":
+		// --rm together with -o none (no output is produced at all): the source must survive
+		f := c.Files[0]
+		r1, _ := runTool(work, nil, wall, nil, append(copts, "-i", filepath.Join("t", f.Rel), "-o", "none", "--rm")...)
+		if _, err := os.Stat(filepath.Join(tree, f.Rel)); err != nil {
+			bad("source-removed-without-output", "compress -o none --rm (exit %d) removed %s although no output exists", r1.exit, f.Rel)
+		}
+		r0, _ := runTool(work, nil, wall, nil, append(copts, "-i", filepath.Join("t", f.Rel), "-o", "keep.knz")...)
+		if r0.exit == 0 {
+			r2, _ := runTool(work, nil, wall, nil, append(dopts, "-i", "keep.knz", "-o", "none", "--rm")...)
+			if _, err := os.Stat(filepath.Join(work, "keep.knz")); err != nil {
+				bad("source-removed-without-output", "decompress -o none --rm (exit %d) removed the archive although no output exists", r2.exit)
+			}
 		}
 		nontrivial = true
 	case "file":
@@ -648,6 +678,9 @@ func c19(run *core.Run, replay string) {
 		cases = append(cases, &cliCase{Kind: "no-overwrite", Files: randomTree(r, 1, 20000), Opts: optSets[(i*3)%len(optSets)], Seed: S + int64(i)})
 		cases = append(cases, &cliCase{Kind: "same-file", Files: randomTree(r, 1, 20000), Opts: optSets[(i*5)%len(optSets)], Seed: S + int64(i)})
 		cases = append(cases, &cliCase{Kind: "force-overwrite", Files: randomTree(r, 1, 70000), Opts: optSets[(i*7)%len(optSets)], DOpts: []string{"-j", "2"}, Seed: S + int64(i)})
+		cases = append(cases, &cliCase{Kind: "rm-none", Files: randomTree(r, 1, 20000), Opts: optSets[(i*11)%len(optSets)], DOpts: []string{"-j", "1"}, Seed: S + int64(i)})
+		cases = append(cases, &cliCase{Kind: []string{"tree-outdir-noforce", "tree-outdir-dotslash", "tree-outdir-slash"}[i%3], Files: append(randomTree(r, 4, 20000), cliTreeFile{Rel: "sub/deep/x.txt", Shape: "text", Size: 3000}, cliTreeFile{Rel: "t/t.bin", Shape: "random", Size: 500}),
+			Opts: optSets[(i*13)%len(optSets)], DOpts: []string{"-j", "2"}, Seed: S + int64(i)})
 	}
 	// kill points on --rm runs
 	killTree := []cliTreeFile{{"a.txt", "text", 200000}, {"sub/b.bin", "random", 70000}, {"sub/empty", "text", 0}, {"c.dat", "html", 400000}}
